@@ -208,7 +208,13 @@ func (c *Ctx) vacuity(what string) {
 		return
 	}
 	c.oblSeen[name] = true
-	o := &Obligation{Name: name, Base: name, Func: c.FuncName, Kind: "vacuity", Hyps: append([]Term{}, c.St.Path...),
+	var hyps []Term
+	for _, h := range c.St.Path {
+		if !c.axiomSet[h.S] { // library axioms are not what the vacuity check is about
+			hyps = append(hyps, h)
+		}
+	}
+	o := &Obligation{Name: name, Base: name, Func: c.FuncName, Kind: "vacuity", Hyps: hyps,
 		Goal: False, Src: "precondition is satisfiable", Pos: c.E.relPos(c.curPos), Vacuity: true, Decls: c.decls, Serves: c.serves}
 	c.obls = append(c.obls, o)
 }
@@ -282,7 +288,12 @@ func (c *Ctx) assumeAxioms(names []string) {
 		if lm == nil {
 			c.refuse("uses: unknown lemma %s", n)
 		}
-		c.assume(c.lemmaFormula(pi, lm))
+		f := c.lemmaFormula(pi, lm)
+		if c.axiomSet == nil {
+			c.axiomSet = map[string]bool{}
+		}
+		c.axiomSet[f.S] = true
+		c.assume(f)
 		c.E.LemmaUse[pi.Name+"."+lm.Name]++
 	}
 }
